@@ -1,7 +1,7 @@
 """Regenerate coq/gen/*.v from /repo's current sources.  Files are rewritten only when their
 content changes so that make stays incremental."""
 import os, sys, json
-from . import dispatch, tables, inventory, leaf, effects
+from . import dispatch, tables, inventory, leaf, effects, selfcheck
 
 VERIF = os.path.dirname(os.path.dirname(os.path.abspath(__file__)))
 GEN = os.path.join(VERIF, "coq", "gen")
@@ -86,21 +86,31 @@ def regenerate(cfg, sizes):
         rows, uns = {}, list(range(256))
     else:
         rows, uns = r
-    write_if_changed(os.path.join(GEN, "Gen_dispatch.v"), dispatch.emit(rows, uns))
+    txt, n2 = selfcheck.guarded("Gen_dispatch", dispatch.emit(rows, uns), dispatch.emit({}, list(range(256))), "dispatch")
+    report["unsupported"] += ["translator_unsupported:" + n for n in n2]
+    write_if_changed(os.path.join(GEN, "Gen_dispatch.v"), txt)
     report["dispatch_rows"] = len(rows)
     # utf8d
     t, notes = tables.utf8d(incs, defs)
     report["unsupported"] += ["translator_unsupported:" + n for n in notes]
     if t is None:
         t = {"vals": [], "const": False, "static": False}
-    write_if_changed(os.path.join(GEN, "Gen_utf8d.v"), tables.emit_utf8d(t))
+    txt, n2 = selfcheck.guarded("Gen_utf8d", tables.emit_utf8d(t), tables.emit_utf8d({"vals": [], "const": False, "static": False}), "utf8d")
+    report["unsupported"] += ["translator_unsupported:" + n for n in n2]
+    write_if_changed(os.path.join(GEN, "Gen_utf8d.v"), txt)
     report["utf8d_entries"] = len(t["vals"])
     # config
-    write_if_changed(os.path.join(GEN, "Gen_config.v"), tables.emit_config(cfg["conf"], sizes))
+    txt, n2 = selfcheck.guarded("Gen_config", tables.emit_config(cfg["conf"], sizes), tables.emit_config({}, {k: 0 for k in sizes}), "config")
+    report["unsupported"] += ["translator_unsupported:" + n for n in n2]
+    write_if_changed(os.path.join(GEN, "Gen_config.v"), txt)
     # leaf functions
     fns, notes = leaf.translate_all(cfg)
     report["unsupported"] += ["translator_unsupported:" + n for n in notes]
-    write_if_changed(os.path.join(GEN, "Gen_leaf.v"), leaf.emit(fns))
+    txt, n2 = leaf.emit_checked(fns)
+    report["unsupported"] += ["translator_unsupported:" + n for n in n2]
+    bad = set(n.split(":")[0] for n in n2)
+    fns = [(n, (None if n in bad else t)) for n, t in fns]
+    write_if_changed(os.path.join(GEN, "Gen_leaf.v"), txt)
     report["leaf_functions"] = sum(1 for _, t in fns if t is not None)
     # plans (translator/effects.py): container functions, decoder glue, serializer, cbor_decref, cbor_copy.
     # Every generated file is type-checked here, once, before it is installed: a translator bug can
@@ -115,6 +125,8 @@ def regenerate(cfg, sizes):
     # inventories
     inv, notes = inventory.scan(cfg)
     report["unsupported"] += ["translator_unsupported:" + n for n in notes]
-    write_if_changed(os.path.join(GEN, "Gen_inventory.v"), inventory.emit(inv))
+    txt, n2 = selfcheck.guarded("Gen_inventory", inventory.emit(inv), inventory.emit({k: [] for k in inv}), "inventory")
+    report["unsupported"] += ["translator_unsupported:" + n for n in n2]
+    write_if_changed(os.path.join(GEN, "Gen_inventory.v"), txt)
     report["inventory"] = {k: len(v) for k, v in inv.items()}
     return report
